@@ -81,7 +81,7 @@ class IOWorld(Machine):
                        "float_image", "uint8_image_roundtrip", "import_export_reimport", "nan_landmark", "manager_ge2_groups",
                        "unicode_label", "spelling_0", "spelling_1", "spelling_2", "spelling_3", "spelling_4", "spelling_5",
                        "clean_path_read_back_later", "path_reduce_restored", "pts_roundtrip", "empty_edge_set",
-                       "pts_large_coordinates")
+                       "pts_large_coordinates", "masked_image_export", "explicit_extension_kwarg")
 
     @classmethod
     def swarm(cls, rng, tier):
@@ -304,7 +304,13 @@ class IOWorld(Machine):
         h, w = int(g.randint(1, 9)), int(g.randint(1, 10))
         e = ext.lower()
         ch = 3 if e == ".ppm" else (1 if e == ".pgm" else (3 if g.rand() < 0.5 else 1))
-        which = kind % 4
+        which = kind % 5
+        if which == 4:      # masked image: the pixel data is what is exported
+            u = g.randint(0, 256, size=(ch, h, w)).astype(np.uint8)
+            mask = g.rand(h, w) < 0.6
+            mask.flat[0] = True
+            self.ctx.probe("masked_image_export")
+            return MaskedImage(u * (1.0 / 255.0), mask=mask), u, "u8float"
         if which == 0:      # eight-bit values held as normalised floats (what import gives)
             u = g.randint(0, 256, size=(ch, h, w)).astype(np.uint8)
             return Image(u * (1.0 / 255.0)), u, "u8float"
@@ -433,7 +439,12 @@ class IOWorld(Machine):
             kind = "ljson"
         fp = self.spelled(rel, op["spell"])
         snap = self._lm_snapshot(obj)
-        return self._export(op, before, rel, lambda: mio.export_landmark_file(obj, fp, overwrite=bool(op["ow"])),
+        kw = {}
+        if op["proto"] == 3:
+            e0 = ".pts" if pts else ".ljson"
+            kw["extension"] = [e0, e0[1:], e0.upper()][op["kind"] % 3]
+            self.ctx.probe("explicit_extension_kwarg")
+        return self._export(op, before, rel, lambda: mio.export_landmark_file(obj, fp, overwrite=bool(op["ow"]), **kw),
                             kind, snap, self._check_lm)
 
     def _op_export_pickle(self, op, before):
@@ -450,7 +461,11 @@ class IOWorld(Machine):
         img, data, tag = self.img_object(op["kind"], op["seed"], ext)
         rel = self.relname(op, ext)
         fp = self.spelled(rel, op["spell"])
-        return self._export(op, before, rel, lambda: mio.export_image(img, fp, overwrite=bool(op["ow"])),
+        kw = {}
+        if op["proto"] == 3:
+            kw["extension"] = [ext, ext[1:], ext.upper()][op["seed"] % 3]
+            self.ctx.probe("explicit_extension_kwarg")
+        return self._export(op, before, rel, lambda: mio.export_image(img, fp, overwrite=bool(op["ow"]), **kw),
                             "img", (tag, data), self._check_image)
 
     def _op_export_video(self, op, before):
